@@ -122,9 +122,10 @@ static void body(void) {
                 /* light set of entry points: one-shot at two capacities, streaming, frame walk */
                 u8* in = (u8*)malloc(len); memcpy(in, buf, len);
                 for (int ci = 0; ci < 2; ci++) { size_t cap = ci ? 300 : 0; u8* dst = (u8*)malloc(cap + 1); size_t r = ZSTD_decompress(dst, cap, in, len); n_decodes++; if (!ZSTD_isError(r)) n_accepted++; if (!ZSTD_isError(r) && r > cap) { vx_fail("ZSTD_decompress returned %zu > capacity %zu", r, cap); } free(dst); }
-                { ZSTD_DCtx* d = ZSTD_createDCtx(); u8* dst = (u8*)malloc(300); ZSTD_inBuffer ib = { in, len, 0 }; size_t r = 1; int it = 0;
-                  while (!ZSTD_isError(r) && it++ < 64) { ZSTD_outBuffer ob = { dst, 300, 0 }; r = ZSTD_decompressStream(d, &ob, &ib); n_decodes++; if (ib.pos == ib.size && ob.pos == 0) break; }
-                  if (it >= 64) vx_fail("decompressStream still running after 64 calls on a %zu-byte input", len);
+                { ZSTD_DCtx* d = ZSTD_createDCtx(); u8* dst = (u8*)malloc(300); ZSTD_inBuffer ib = { in, len, 0 }; size_t r = 1; int it = 0, idle = 0;
+                  /* a short input can legitimately regenerate a lot (a run-length block): only calls WITHOUT progress count against the decoder */
+                  while (!ZSTD_isError(r) && r != 0 && it++ < 100000 && idle < 40) { size_t ipos = ib.pos; ZSTD_outBuffer ob = { dst, 300, 0 }; r = ZSTD_decompressStream(d, &ob, &ib); n_decodes++; if (ib.pos == ib.size && ob.pos == 0) break; idle = (ib.pos == ipos && ob.pos == 0) ? idle + 1 : 0; }
+                  if (idle >= 40 || it >= 100000) vx_fail("decompressStream makes no progress and reports no error on a %zu-byte input (%d calls)", len, it);
                   free(dst); ZSTD_freeDCtx(d); }
                 (void)ZSTD_findFrameCompressedSize(in, len); (void)ZSTD_decompressBound(in, len); (void)ZSTD_getFrameContentSize(in, len);
                 free(in);
